@@ -3,7 +3,8 @@
 import re
 from engine.rules import (MustPass, guard_edges, eq_matcher, pred_matcher, outcome, aggregates_of, calls_to,
                           call_checked, variant_edge_fails, switch_bool_edges, variant_edge, bool_place_edge, any_of)
-from engine.sym import Sym, strip, strip_deep, render, walk, short, roots
+from engine.sym import Sym, strip, strip_deep, render, walk, short, roots, is_transparent_call, _Info
+from engine.rules import success_values
 from engine.callgraph import CallGraph
 from props import common as K
 
@@ -25,6 +26,336 @@ CRL = "ca::sigmsg::SignedMessageCrl::"
 TBSCRL = "ca::sigmsg::SignedMessageTbsCrl::"
 IDC = "ca::idcert::IdCert::"
 
+
+
+# ---------------------------------------------------------------------------
+# Vocabulary layer.
+#
+# A rule is about a VALUE ("the digest algorithm announced in the SignedData", "the key's bits"), not about the way the
+# source spells it.  `Vocab.forms(body, term)` gives the canonical spellings of a provenance term:
+#   * lifted: captures of a closure are replaced by the values captured where the closure is created, parameters of a
+#     private function with a single call site (never used as a value) by the arguments given there — recursively, so a
+#     block of code reads the same inline, inside nested closures or moved into a private helper;
+#   * success payloads have one spelling: `x?`, `x.unwrap()`, `x.expect(..)`, `match x { Ok(v) => v, .. }`,
+#     `x.map_err(f)?`, `x.ok_or(e)?` all read `ok(x)`; projections of literal aggregates (tuple or struct) are the
+#     component; named integer constants are their value; names of mutated locals are dropped;
+#   * expanded (second form): a call of a crate function whose body is a straight-line projection of its parameters
+#     (accessor, `bits()`) is the projected value, `ok(helper(args))` of a crate function with a single success value is
+#     that value, and `ok(cons.take_sequence(closure))` (bcder's combinators return what the closure returns) is the
+#     closure's success value.
+# Matchers accept a value when ANY of its forms matches.
+
+_OKI = _Info({"fn": "ok", "res": "ok", "name": "ok!", "trait": None, "krate": None})
+_PAYLOAD_KEEPING = {"map_err", "ok_or", "ok_or_else", "inspect", "inspect_err", "ok", "or_else"}
+_UNWRAPS = {"unwrap", "expect", "unwrap_unchecked"}
+_BCDER_RETURNS_CLOSURE = {"take_sequence", "take_set", "take_constructed", "take_constructed_if", "take_value",
+                          "take_value_if", "take_primitive", "take_primitive_if", "decode", "decode_partial"}
+_MODULES = ("ca::sigmsg::", "ca::idcert::", "crypto::keys::", "crypto::digest::", "crypto::signature::",
+            "repository::sigobj::", "repository::x509::")
+
+
+def _is_std_optres(info):
+    return re.match(r"^(std|core)::(option::Option|result::Result)::<", (info or {}).get("fn") or "") is not None
+
+
+def tmap(t, fn):
+    """Rebuild a term bottom-up, applying fn to every rebuilt node."""
+    k = t[0]
+    if k == "field":
+        t = ("field", tmap(t[1], fn), t[2], t[3] if len(t) > 3 else None)
+    elif k == "variant":
+        t = ("variant", tmap(t[1], fn), t[2])
+    elif k == "mvar":
+        t = ("mvar", t[1], t[2], tmap(t[3], fn))
+    elif k == "index":
+        t = ("index", tmap(t[1], fn), tmap(t[2], fn))
+    elif k == "subslice":
+        t = ("subslice", tmap(t[1], fn)) + tuple(t[2:])
+    elif k == "call":
+        t = ("call", t[1], tuple(tmap(a, fn) for a in t[2]), t[3])
+    elif k == "bin":
+        t = ("bin", t[1], tmap(t[2], fn), tmap(t[3], fn))
+    elif k == "un":
+        t = ("un", t[1], tmap(t[2], fn))
+    elif k == "cast":
+        t = ("cast", tmap(t[1], fn), t[2])
+    elif k in ("discr", "len"):
+        t = (k, tmap(t[1], fn))
+    elif k == "agg":
+        t = ("agg", t[1], t[2], tuple((f_, tmap(v, fn)) for f_, v in t[3]))
+    elif k == "closure":
+        t = ("closure", t[1], tuple(tmap(a, fn) for a in t[2]))
+    elif k == "repeat":
+        t = ("repeat", tmap(t[1], fn), t[2])
+    return fn(t)
+
+
+def _leaf_subst(t, m):
+    if not m:
+        return t
+
+    def fn(x):
+        if x[0] in ("param", "upvar"):
+            return m.get((x[0], x[1]), x)
+        return x
+    return tmap(t, fn)
+
+
+class Vocab:
+    def __init__(self, f):
+        self.f = f
+        self._env = {}
+        self._forms = {}
+        self._sites = None
+        self._ret = {}
+
+    # -- where closures are created / private functions are called ---------------
+    def _scan(self):
+        if self._sites is not None:
+            return
+        created, called, as_value = {}, {}, set()
+        for n in list(self.f.bodies.keys()):
+            if not n.startswith(_MODULES) and not (n.startswith("<") and any(m in n for m in _MODULES)):
+                continue
+            b = self.f.body(n)
+            if b is None:
+                continue
+            for _, _, cdef, st in b.closures_created():
+                created.setdefault(cdef, []).append((b, st))
+            for c in b.calls():
+                if b.is_cleanup(c.bb) or not c.is_static:
+                    continue
+                called.setdefault(c.res, []).append(c)
+                for a in c.args:
+                    k = a.get("k") if isinstance(a, dict) else None
+                    if k and "fn" in k:
+                        as_value.add(k.get("res") or k["fn"])
+            for blk in b.blocks:
+                for st in blk["stmts"]:
+                    if st["s"] == "assign" and st["rv"]["r"] in ("use", "cast"):
+                        k = st["rv"]["op"].get("k")
+                        if k and "fn" in k:
+                            as_value.add(k.get("res") or k["fn"])
+        self._sites = (created, called, as_value)
+
+    def creation_sites(self, cdef):
+        self._scan()
+        return self._sites[0].get(cdef, [])
+
+    def env(self, body):
+        """{('upvar', n) | ('param', n): lifted term} for the free names of `body`."""
+        name = body.name
+        if name in self._env:
+            return self._env[name]
+        self._env[name] = {}              # cycle guard
+        self._scan()
+        created, called, as_value = self._sites
+        m = {}
+        if "{closure" in name.rsplit("::", 1)[-1]:
+            sites = created.get(name, [])
+            if len(sites) == 1:
+                pb, st = sites[0]
+                ct = K.sym_of(pb).rvalue(st["rv"])
+                for uname, idx in self._upvar_idx(body):
+                    if idx < len(ct[2]):
+                        m[("upvar", uname)] = self.lift(pb, strip_deep(ct[2][idx]))
+        else:
+            r = self.f.fns.get(name) or {}
+            sites = called.get(name, [])
+            if len(sites) == 1 and name not in as_value and not r.get("exported") and r.get("vis") != "pub" \
+                    and not r.get("impl_trait") and sites[0].body.name != name and len(sites[0].args) == body.arg_count:
+                c = sites[0]
+                s = K.sym_of(c.body)
+                for j, a in enumerate(c.args):
+                    pn = body.local_name(j + 1) or "_%d" % (j + 1)
+                    m[("param", pn)] = self.lift(c.body, strip_deep(s.operand(a)))
+        self._env[name] = m
+        return m
+
+    @staticmethod
+    def _upvar_idx(cb):
+        out = []
+        for uname, pl in cb.rec.get("upvars", []):
+            for pe in pl.get("p", []):
+                if pe and pe[0] == "f":
+                    try:
+                        out.append((uname, int(pe[1])))
+                    except (TypeError, ValueError):
+                        pass
+                    break
+        return out
+
+    def lift(self, body, t):
+        return _leaf_subst(t, self.env(body))
+
+    # -- what a crate function returns, over its own parameters ---------------------
+    def returned(self, name):
+        """('proj', term) for a straight-line function whose result is built from its parameters alone;
+        ('ok', term) for a fallible function with a single success value (the payload, or ok(tail call));
+        None otherwise."""
+        if name in self._ret:
+            return self._ret[name]
+        self._ret[name] = None
+        b = self.f.body(name)
+        r = None
+        if b is not None and not b.is_coroutine:
+            oc = outcome(b)
+            straight = not any(blk["term"]["t"] == "switch" for blk in b.blocks if not blk.get("cleanup"))
+            vals = success_values(b, oc)
+            if len(vals) == 1:
+                t = strip_deep(vals[0][2])
+                bad = any(x[0] in ("var", "unknown", "yield", "mvar") for x in walk(t))
+                if not bad:
+                    if oc.kind in ("result", "option"):
+                        if t[0] == "agg" and t[2] in ("Ok", "Some") and len(t[3]) == 1:
+                            r = ("ok", t[3][0][1])
+                        elif t[0] == "call":
+                            r = ("ok", ("call", "ok", (t,), _OKI))
+                    elif straight:
+                        rts = roots(t)
+                        if rts and all(x[0] == "param" for x in rts):
+                            r = ("proj", t)
+        self._ret[name] = r
+        return r
+
+    def _bind_params(self, callee, args):
+        cb = self.f.body(callee)
+        m = {}
+        skip = 1 if "{closure" in callee.rsplit("::", 1)[-1] else 0
+        for j, a in enumerate(args):
+            pn = cb.local_name(j + 1 + skip)
+            if pn:
+                m[("param", pn)] = a
+        return m
+
+    # -- canonical form ----------------------------------------------------------------
+    def canon(self, t, expand=False, depth=0):
+        consts = getattr(self.f, "consts", {})
+
+        def ok_of(y):
+            # success payload of y
+            while y[0] == "call" and (y[3] or {}).get("name") in _PAYLOAD_KEEPING and y[2] and _is_std_optres(y[3]):
+                y = y[2][0]
+            if y[0] == "call" and (y[3] or {}).get("name") == "branch" and ((y[3] or {}).get("trait") or "").endswith("ops::Try") and len(y[2]) == 1:
+                return ok_of(y[2][0])
+            if y[0] == "agg" and y[2] in ("Ok", "Some") and len(y[3]) == 1:
+                return y[3][0][1]
+            if expand and depth < 8 and y[0] == "call":
+                info = y[3] or {}
+                if y[1] in self.f.bodies:
+                    r = self.returned(y[1])
+                    if r is not None and r[0] == "ok":
+                        return self.canon(_leaf_subst(r[1], self._bind_params(y[1], y[2])), expand, depth + 1)
+                elif info.get("krate") == "bcder" and info.get("name") in _BCDER_RETURNS_CLOSURE and y[2]:
+                    last = y[2][-1]
+                    if last[0] == "closure" and last[1] in self.f.bodies:
+                        r = self.returned(last[1])
+                        cb = self.f.body(last[1])
+                        if r is not None and r[0] == "ok" and cb is not None:
+                            m = {("upvar", un): last[2][ix] for un, ix in self._upvar_idx(cb) if ix < len(last[2])}
+                            return self.canon(_leaf_subst(r[1], m), expand, depth + 1)
+                    elif last[0] == "fnref" and last[1] in self.f.bodies:
+                        r = self.returned(last[1])
+                        if r is not None and r[0] == "ok":
+                            return self.canon(r[1], expand, depth + 1)
+            return ("call", "ok", (y,), _OKI)
+
+        def fn(x):
+            k = x[0]
+            if is_transparent_call(x):
+                return x[2][0]
+            if k == "cdef":
+                c = consts.get(x[1])
+                if c is not None and isinstance(c.get("v"), int) and not isinstance(c.get("v"), bool):
+                    return ("const", c["v"])
+                return x
+            if k == "mvar":
+                return ("mvar", "", x[2], x[3])
+            if k == "field":
+                base, name = x[1], str(x[2])
+                if base[0] == "agg":
+                    for f_, v in base[3]:
+                        if str(f_) == name:
+                            return v
+                if base[0] == "variant" and name == "0":
+                    inner = base[1]
+                    if inner[0] == "agg" and inner[2] == base[2] and len(inner[3]) >= 1:
+                        return inner[3][0][1]
+                    if base[2] == "Continue" and inner[0] == "call" and (inner[3] or {}).get("name") == "branch":
+                        return ok_of(inner)
+                    if base[2] in ("Ok", "Some"):
+                        return ok_of(inner)
+                return x
+            if k == "call":
+                info = x[3] or {}
+                if info.get("name") in _UNWRAPS and x[2] and _is_std_optres(info):
+                    return ok_of(x[2][0])
+                if info.get("name") == "ok!" and x[2]:
+                    return ok_of(x[2][0])
+                if expand and depth < 8 and x[1] in self.f.bodies:
+                    r = self.returned(x[1])
+                    if r is not None and r[0] == "proj":
+                        return self.canon(_leaf_subst(r[1], self._bind_params(x[1], x[2])), expand, depth + 1)
+            return x
+        return tmap(strip_deep(t), fn)
+
+    def forms(self, body, t):
+        """Canonical renderings of term t of `body` (as written / lifted, each plain and expanded)."""
+        key = (body.name, id(body), t)
+        r = self._forms.get(key)
+        if r is None:
+            lt = self.lift(body, strip_deep(t))
+            out = []
+            for src in (t, lt):
+                for ex in (False, True):
+                    try:
+                        s = render(self.canon(src, ex))
+                    except RecursionError:
+                        continue
+                    if s not in out:
+                        out.append(s)
+            r = self._forms[key] = tuple(out)
+        return r
+
+    def hit(self, body, t, rx):
+        return any(rx.search(x) for x in self.forms(body, t))
+
+    # -- matchers -------------------------------------------------------------------
+    def eq(self, body, pa, pb):
+        """`A == B` (either order) on the canonical forms."""
+        ra, rb = re.compile(pa), re.compile(pb)
+
+        def m(rel, a, b):
+            if rel != "eq" or b is None:
+                return None
+            if (self.hit(body, a, ra) and self.hit(body, b, rb)) or (self.hit(body, b, ra) and self.hit(body, a, rb)):
+                return True
+            return None
+        return m
+
+    def pred(self, body, name_rx, arg_rxs=(), positive=True):
+        rn = re.compile(name_rx)
+        ras = [re.compile(x) for x in arg_rxs]
+
+        def m(rel, a, b):
+            if not (isinstance(rel, tuple) and rel[0] == "pred"):
+                return None
+            if not (rn.search(rel[1]) or rn.search(short(rel[1]))):
+                return None
+            for i, r in enumerate(ras):
+                if i >= len(a) or not self.hit(body, a[i], r):
+                    return None
+            return positive
+        return m
+
+    def args(self, c):
+        """Canonical forms of the arguments of a call site."""
+        s = K.sym_of(c.body)
+        return [self.forms(c.body, strip_deep(s.operand(a))) for a in c.args]
+
+
+def _any(forms, rx):
+    return any(re.search(rx, x) for x in forms)
 
 def mp_guard(f, name, gfn):
     return MustPass(f, lambda c: False, guard_fn=gfn, name=name)
